@@ -101,7 +101,7 @@ func genProdCase(t *rapid.T) prodCase {
 		c.A = small("n", 3, 10)
 		c.B = small("k", 1, (c.A-1)/2)
 	case "FlowerSnark":
-		c.A = rapid.SampledFrom([]int{3, 5, 7}).Draw(t, "n")
+		c.A = rapid.SampledFrom([]int{1, 3, 5, 7}).Draw(t, "n")
 	case "Rook":
 		c.A, c.B = small("a", 0, 4), small("b", 0, 4)
 	case "RandomGraph":
@@ -447,6 +447,13 @@ func checkProdCase(c prodCase, rec *Rec) error {
 			}
 		}
 		err = build(func() { got = graph.FlowerSnark(n) })
+		if err == nil && n == 1 {
+			// n = 1 is odd, hence accepted, but the construction degenerates (the cycles collapse) and no definition says
+			// what the result should be: only well-formedness is required (M and Degrees must agree with the adjacency)
+			_, werr := wellFormed(desc, got)
+			rec.NonTrivial(true)
+			return werr
+		}
 	case "Rook":
 		// no vertex order is documented: compare up to isomorphism with the rook's-move definition
 		var d *graph.DenseGraph
@@ -542,6 +549,22 @@ func checkProdCase(c prodCase, rec *Rec) error {
 				g.Add(0, 1)
 			}
 			if err = sameAs(desc+" after editing the underlying graph", view, g.Complement()); err != nil {
+				return err
+			}
+			// the underlying graph gains a vertex and loses one: the view follows
+			nb := []int{0}
+			if p := try(func() { d.AddVertex(nb) }); p != nil {
+				return fmt.Errorf("%s: AddVertex on the underlying graph panicked: %v", desc, p)
+			}
+			g.AddVertex(nb)
+			if err = sameAs(desc+" after the underlying graph gained a vertex", view, g.Complement()); err != nil {
+				return err
+			}
+			if p := try(func() { d.RemoveVertex(1) }); p != nil {
+				return fmt.Errorf("%s: RemoveVertex on the underlying graph panicked: %v", desc, p)
+			}
+			g.RemoveVertex(1)
+			if err = sameAs(desc+" after the underlying graph lost vertex 1", view, g.Complement()); err != nil {
 				return err
 			}
 		}
@@ -808,7 +831,7 @@ func enumProdBoundaries(yield func(prodCase) bool) {
 			}
 		}
 	}
-	for _, n := range []int{3, 5, 7} {
+	for _, n := range []int{1, 3, 5, 7} {
 		if !e(prodCase{Prod: "FlowerSnark", A: n}) {
 			return
 		}
